@@ -164,7 +164,7 @@ func (e *Enc) applyCall(v ssa.Value, c *ssa.CallCommon, args []TV, in ssa.Instru
 	// ---- contract application ----
 	env := e.newEnv(ctr.Pkg)
 	names := ctr.Params
-	if ctr.RecvName != "" {
+	if ctr.RecvName != "" && (fn == nil || fn.Signature.Recv() != nil || c.IsInvoke()) {
 		names = append([]string{ctr.RecvName}, names...)
 	}
 	for i, n := range names {
